@@ -197,6 +197,13 @@ func (r *RegistryImpl) Begin(ctx context.Context, engine interface{}, readOnly b
 		var tx Transaction
 		var err error
 
+		// Always deliver the outcome (the channel is buffered, this never
+		// blocks): the receiver is Begin itself or, once Begin has timed out,
+		// the goroutine it leaves behind to roll a late transaction back
+		defer func() {
+			resultCh <- txResult{tx, err}
+		}()
+
 		// Check for different types of engines
 		if engine != nil {
 			// Just directly try to get a transaction, without complex type checking
@@ -229,16 +236,6 @@ func (r *RegistryImpl) Begin(ctx context.Context, engine interface{}, readOnly b
 		} else {
 			err = fmt.Errorf("nil engine provided to transaction registry")
 		}
-
-		select {
-		case resultCh <- txResult{tx, err}:
-			// Successfully sent result
-		case <-timeoutCtx.Done():
-			// Context timed out, but try to rollback if we got a transaction
-			if tx != nil {
-				tx.Rollback()
-			}
-		}
 	}()
 
 	// Wait for result or timeout
@@ -268,6 +265,13 @@ func (r *RegistryImpl) Begin(ctx context.Context, engine interface{}, readOnly b
 		return txID, nil
 
 	case <-timeoutCtx.Done():
+		// The worker may still obtain a transaction (and with it the database
+		// lock) later: nobody would know it, so roll it back when it arrives
+		go func() {
+			if result := <-resultCh; result.tx != nil {
+				result.tx.Rollback()
+			}
+		}()
 		return "", fmt.Errorf("transaction creation timed out: %w", timeoutCtx.Err())
 	}
 }
